@@ -430,10 +430,152 @@ def gen_filters():
     return "\n".join(out) + "\n"
 
 
+def match_brace(src, i):
+    """index just after the brace block that opens at src[i] == '{' (strings and chars are skipped)"""
+    depth = 0
+    j = i
+    while j < len(src):
+        ch = src[j]
+        if ch == '"':
+            j += 1
+            while src[j] != '"':
+                j += 2 if src[j] == "\\" else 1
+        elif ch == "{":
+            depth += 1
+        elif ch == "}":
+            depth -= 1
+            if depth == 0:
+                return j + 1
+        j += 1
+    raise Unsupported("unbalanced braces")
+
+
+def gen_cli():
+    """bin/src/main.rs, App::run: per library mode the order of the set-up steps and the ordered list of
+    (flags whose disjunction guards the block, library method called in it, object that prints)"""
+    src = open(os.path.join(REPO, "bin/src/main.rs")).read()
+    src = re.sub(r"//[^\n]*", "", src)
+    m = re.search(r"match self\.implementation\.as_str\(\) \{", src)
+    if not m:
+        raise Unsupported("match on the library mode")
+    body = src[m.end() - 1: match_brace(src, m.end() - 1)]
+    arms = {}
+    for key, pat in (("hybrid", r'"hybrid" => \{'), ("biodivine", r'"biodivine" => \{'), ("naive", r"\n\s*_ => \{")):
+        ms = list(re.finditer(pat, body))
+        if len(ms) < 1:
+            raise Unsupported("arm %s" % key)
+        a = ms[0] if key != "naive" else [x for x in ms if body[:x.start()].count("{") - body[:x.start()].count("}") == 1][-1]
+        st = a.end() - 1
+        arms[key] = body[st: match_brace(body, st)]
+    if set(re.findall(r'"(\w+)" => \{', body)) - {"hybrid", "biodivine"}:
+        raise Unsupported("unknown library mode arm")
+    out = ["(* GENERATED by tools/translate.py from bin/src/main.rs (App::run) - do not edit *)",
+           "From Coq Require Import List String.", "Import ListNotations.", "Local Open Scope string_scope.", ""]
+    # long option -> field of App (clap derive attributes)
+    app = src[src.index("struct App {"): src.index("impl App {")]
+    longs = re.findall(r'#\[arg\(long = "(\w+)"[^\]]*\)\]\s*(\w+): bool', app)
+    out.append("Definition g_cli_flags : list (string * string) := [%s]." % "; ".join('("%s", "%s")' % (f, l) for l, f in longs))
+    setup_pats = [("parse", r"parser\.parse\(\)"), ("sort_lex", r"parser\.varsort_lexi\(\)"), ("sort_alphan", r"parser\.varsort_alphanum\(\)"),
+                  ("build", r"(?:BdAdf|Adf)::from_parser\(&parser\)"), ("build_rew", r"BdAdf::from_parser_with_stm_rewrite\(&parser\)"),
+                  ("hybrid_step", r"adf\.hybrid_step\(\)"), ("import", r"serde_json::from_str"), ("export", r"serde_json::to_writer"),
+                  ("counter", r"match self\.counter")]
+    sem_fields = {"grounded", "complete", "stable", "stable_counting_a", "stable_counting_b", "stable_pre", "stable_rew", "stable_rew2", "stable_ng", "two_val"}
+    for key in ("hybrid", "biodivine", "naive"):
+        arm = arms[key]
+        steps = []
+        for name, pat in setup_pats:
+            for x in re.finditer(pat, arm):
+                steps.append((x.start(), name))
+        steps.sort()
+        first_sem = None
+        secs = []
+        for x in re.finditer(r"if ((?:!?self\.\w+)(?: \|\| self\.\w+)*) \{", arm):
+            conds = re.findall(r"(!?)self\.(\w+)", x.group(1))
+            fields = [f for neg, f in conds]
+            if not all(f in sem_fields for f in fields):
+                continue
+            blk = arm[x.end() - 1: match_brace(arm, x.end() - 1)]
+            if any(neg for neg, f in conds) or "from_parser" in blk:
+                continue        # the choice between the two constructors, reported among the set-up steps
+            calls = [c for c in re.findall(r"\b(\w+)\.(\w+)\(", blk) if c[1] not in ("print_interpretation", "print_dictionary", "unwrap_or_default", "into_iter", "expect")
+                     and c[0] in ("adf", "naive_adf")]
+            printers = sorted(set(re.findall(r"(\w+)\.print_interpretation\(", blk)))
+            if len(calls) != 1 or len(printers) != 1:
+                raise Unsupported("block guarded by %s in mode %s: calls %r printers %r" % (x.group(1), key, calls, printers))
+            if first_sem is None:
+                first_sem = x.start()
+            heu = "heu" if "self.heu" in blk else "-"
+            secs.append((fields, calls[0][1], printers[0], heu))
+        setup = [n for pos, n in steps if first_sem is None or pos < first_sem]
+        late = [n for pos, n in steps if first_sem is not None and pos >= first_sem]
+        if late:
+            raise Unsupported("set-up step %r after the first semantics block in mode %s" % (late, key))
+        out.append("Definition g_cli_setup_%s : list string := [%s]." % (key, "; ".join('"%s"' % n for n in setup)))
+        out.append("Definition g_cli_%s : list (list string * string * string * string) :=\n  [%s]." % (
+            key, ";\n   ".join('([%s], "%s", "%s", "%s")' % ("; ".join('"%s"' % f for f in fl), meth, pr, heu) for fl, meth, pr, heu in secs)))
+    return "\n".join(out) + "\n"
+
+
+def gen_dispatch():
+    """name -> implementation tables that the model mirrors by a match: the heuristics enum (lib) and the
+    strategy dispatch of the web service (already-solved test, library method, stored field)"""
+    heu = open(os.path.join(REPO, "lib/src/adf/heuristics.rs")).read()
+    adf = re.sub(r"//[^\n]*", "", open(os.path.join(REPO, "server/src/adf.rs")).read())
+    out = ["(* GENERATED by tools/translate.py from lib/src/adf/heuristics.rs and server/src/adf.rs - do not edit *)",
+           "From Coq Require Import List String.", "Import ListNotations.", "Local Open Scope string_scope.", ""]
+    m = re.search(r"fn get_heuristic\(&self\)[^{]*\{\s*match self \{(.*?)\n        \}", heu, flags=re.S)
+    if not m:
+        raise Unsupported("Heuristic::get_heuristic")
+    rows = re.findall(r"(?:Heuristic|Self)::(\w+)(?:\(\w+\))? => &?(\w+),", m.group(1))
+    if len(rows) != m.group(1).count("=>"):
+        raise Unsupported("arm of get_heuristic")
+    out.append("Definition g_heuristics : list (string * string) := [%s]." % "; ".join('("%s", "%s")' % r for r in sorted(rows)))
+    m = re.search(r"impl Default for Heuristic<'_> \{\s*fn default\(\) -> Self \{\s*Self::(\w+)\s*\}", heu)
+    if not m:
+        raise Unsupported("Default for Heuristic")
+    out.append('Definition g_heuristic_default : string := "%s".' % m.group(1))
+    solve = fn_text(adf, "solve_adf_problem")
+    checks = dict(re.findall(r"Strategy::(\w+) => adf_problem\.acs_per_strategy\.(\w+)\.is_some\(\)", solve))
+    sets = dict(re.findall(r'Strategy::(\w+) => doc! \{ "\$set": \{ "acs_per_strategy\.(\w+)": &acs_and_graphs_enum \} \}', solve))
+    m = re.search(r"let acs: Vec<Ac> = match adf_problem_input\.strategy \{(.*?)\n            \};", solve, flags=re.S)
+    if not m:
+        raise Unsupported("strategy dispatch of solve_adf_problem")
+    meths = {}
+    for var, expr in re.findall(r"Strategy::(\w+) =>\s*(.*?),\n", m.group(1) + "\n", flags=re.S):
+        e = "".join(expr.split())
+        mm = re.match(r"(vec!\[)?adf\.(\w+)\((.*?)\)(\.collect\(\))?(\])?$", e)
+        if not mm:
+            raise Unsupported("strategy arm %s: %s" % (var, e))
+        arg = mm.group(3)
+        if arg not in ("", "adf_bdd::adf::heuristics::Heuristic::default()"):
+            raise Unsupported("argument of %s: %s" % (mm.group(2), arg))
+        meths[var] = mm.group(2) + ("(default)" if arg else "")
+    if not (set(checks) == set(sets) == set(meths)):
+        raise Unsupported("strategy tables disagree on the variants: %r %r %r" % (sorted(checks), sorted(sets), sorted(meths)))
+    out.append("Definition g_strategies : list (string * string * string * string) :=\n  [%s]." % ";\n   ".join(
+        '("%s", "%s", "%s", "%s")' % (v, checks[v], meths[v], sets[v]) for v in sorted(meths)))
+    add = fn_text(adf, "add_adf_problem")
+    prow = []
+    for x in re.finditer(r"Parsing::(\w+) =>\s*", add):
+        if add[x.end()] == "{":
+            expr = add[x.end(): match_brace(add, x.end())]
+        else:
+            expr = add[x.end(): add.index(",", x.end())]
+        e = "".join(expr.split())
+        if e == "Adf::from_parser(&parser)":
+            prow.append((x.group(1), "native"))
+        elif e == "{letbd_adf=BdAdf::from_parser(&parser);bd_adf.hybrid_step_opt(false)}":
+            prow.append((x.group(1), "biodivine+hybrid_step_opt(false)"))
+        else:
+            raise Unsupported("parsing arm %s: %s" % (x.group(1), e[:200]))
+    out.append("Definition g_parsings : list (string * string) := [%s]." % "; ".join('("%s", "%s")' % r for r in sorted(prow)))
+    return "\n".join(out) + "\n"
+
+
 def main():
     os.makedirs(OUT, exist_ok=True)
     rc = 0
-    for name, fn in (("GenLeaf.v", gen_leaf), ("GenFeatures.v", gen_features), ("GenFlags.v", gen_flags), ("GenFilters.v", gen_filters)):
+    for name, fn in (("GenLeaf.v", gen_leaf), ("GenFeatures.v", gen_features), ("GenFlags.v", gen_flags), ("GenFilters.v", gen_filters), ("GenCli.v", gen_cli), ("GenDispatch.v", gen_dispatch)):
         try:
             txt = fn()
         except Unsupported as e:
